@@ -50,6 +50,45 @@ type Server struct {
 	// ByNS (opt-in, default off): key objects outside namespace "default" as <namespace>/Kind/name
 	// instead of folding every namespace into Kind/name
 	ByNS bool
+	// Intr (opt-in, default nil): another actor that creates one object in the middle of an operation
+	Intr *Intruder
+}
+
+// Intruder: a foreign object appears at Key at a deterministic point of the request stream -
+// When "get404": right after the Nth (1-based) GET of Key that was answered 404;
+// When "post": just before the first POST that creates Key is handled.  One shot.
+type Intruder struct {
+	Key     string
+	When    string
+	Nth     int
+	NS      string
+	Kind    string
+	Name    string
+	Fields  map[string]string
+	seen404 int
+	Fired   bool
+}
+
+func (s *Server) SetIntruder(i *Intruder) { s.mu.Lock(); s.Intr = i; s.mu.Unlock() }
+
+// intrude is called with the lock held
+func (s *Server) intrude(when, key string) {
+	in := s.Intr
+	if in == nil || in.Fired || in.When != when || in.Key != key {
+		return
+	}
+	if when == "get404" {
+		in.seen404++
+		if in.seen404 != in.Nth {
+			return
+		}
+	}
+	in.Fired = true
+	o := Object(in.Kind, in.Name, in.Fields)
+	if in.NS != "" {
+		o["metadata"].(map[string]interface{})["namespace"] = in.NS
+	}
+	s.Objs[key] = o
 }
 
 type Fault struct {
@@ -159,6 +198,9 @@ func (s *Server) handle(method string, known bool, kind, name, key string, body 
 		s.Fault = nil
 		return status(403, "Forbidden", fmt.Sprintf("%s %s rejected (injected fault)", method, key))
 	}
+	if method == "POST" {
+		s.intrude("post", key)
+	}
 	cur, exists := s.Objs[key]
 	switch method {
 	case "GET":
@@ -166,6 +208,7 @@ func (s *Server) handle(method string, known bool, kind, name, key string, body 
 			return status(405, "MethodNotAllowed", "list not supported")
 		}
 		if !exists {
+			s.intrude("get404", key) // the answer is already decided: 404
 			return status(404, "NotFound", fmt.Sprintf("%s %q not found", strings.ToLower(kind), name))
 		}
 		return okJSON(200, cur)
@@ -297,7 +340,7 @@ func (s *Server) TakeMuts() []Mut {
 }
 
 func (s *Server) SetFault(f *Fault) { s.mu.Lock(); s.Fault = f; s.mu.Unlock() }
-func (s *Server) SetDead(d bool)     { s.mu.Lock(); s.Dead = d; s.mu.Unlock() }
+func (s *Server) SetDead(d bool)    { s.mu.Lock(); s.Dead = d; s.mu.Unlock() }
 
 // MutatingRequests counts POST/PUT/PATCH/DELETE requests that arrived (whatever the outcome).
 func (s *Server) MutatingRequests() int {
